@@ -21,6 +21,7 @@ func c03(r *core.Report) {
 	c03MethodSet(r)
 	c03NullPresence(r)
 	c03RequiredKeys(r)
+	c03KeysVerbatim(r)
 	r.Assumption("values survive encoding/json, the YAML reader/writer and custom scalar codecs (Types, AdditionalProperties): not decided")
 
 	type tyinfo struct {
